@@ -113,3 +113,46 @@ pub fn main(dir: &str, seed: u64) -> (i32, Value) {
         "violation_count": n, "violations": viol, "wall_s": t0.elapsed().as_secs_f64()});
     (if n > 0 { 1 } else { 0 }, rep)
 }
+
+/// One sparse file of `total` zero bytes through hash_file_for::<variant>: the expected result comes from the
+/// reference model of a constant stream (TooLargeInput above 4,224,281,216 bytes).
+pub fn big_file(dir: &str, variant: u8, total: u64) -> (i32, Value) {
+    use crate::model::{MOpts, Model, VARIANTS};
+    let t0 = std::time::Instant::now();
+    std::fs::create_dir_all(dir).expect("scratch dir");
+    let path = std::path::Path::new(dir).join(format!("sparse_{total}.bin"));
+    {
+        let f = std::fs::File::create(&path).expect("create sparse file");
+        f.set_len(total).expect("set_len");
+    }
+    let got = crate::framework::guarded(|| {
+        with_kind!(variant, K => match <K as Kind>::hash_file(&path) {
+            Ok(h) => h.to_string(),
+            Err(tlsh::GeneratorOrIOError::GeneratorError(e)) => format!("Err({e:?})"),
+            Err(tlsh::GeneratorOrIOError::IOError(e)) => format!("IOError({:?})", e.kind()),
+        })
+    });
+    let _ = std::fs::remove_file(&path);
+    let v = VARIANTS[variant as usize % 5];
+    let want = Model::at_offset(v, &[0u8], total.min(crate::model::CUTOFF), 400_000).map(|mut m| {
+        if total > m.n {
+            m.skip(total - m.n);
+        }
+        crate::c11::render_model(&m.finalize(MOpts::from_bits(0)))
+    });
+    let hist = json!({"variant_id": variant, "total": total.to_string(), "via": "hash_file_for", "content": "sparse zeros"});
+    let mut viol = Vec::new();
+    match (&got, &want) {
+        (Err(p), _) => viol.push(json!({"index": 300, "class": format!("panic:{}", crate::framework::panic_class(p)), "detail": format!("panic: {p}"), "history": hist, "engine": "bigstream"})),
+        (Ok(g), Some(w)) if g != w => viol.push(json!({"index": 300, "class": "hash-file-differs-from-contents", "detail": format!("sparse file of {total} zero bytes through hash_file_for: got {g}, reference {w}"), "history": hist, "engine": "bigstream"})),
+        _ => {}
+    }
+    for x in viol.iter_mut() {
+        x["argv"] = json!(["hashfile-big", "--dir", dir, "--variant", variant.to_string(), "--total", total.to_string()]);
+    }
+    let n = viol.len();
+    let rep = json!({"scenario": "c12bigfile", "property": "C12", "seed": "0", "evaluations": 1, "distinct": 1, "distinct_nontrivial": 1,
+        "rule": "one sparse file larger than the generator's limit through hash_file_for, compared with the reference model of a constant stream",
+        "counters": {"sim_bytes_fed": total, "probe.file_gt_MAX": (total > 4_224_281_216) as u64}, "samples": [hist], "violation_count": n, "violations": viol, "wall_s": t0.elapsed().as_secs_f64()});
+    (if n > 0 { 1 } else { 0 }, rep)
+}
